@@ -17,3 +17,18 @@ PROPS["C17"] = {
         {"func": "verifH_C17_rapdu", "pkg": "iso7816", "unwind": 8, "expect_reach": ["parsed"]},
     ],
 }
+
+PROPS["C16"] = {
+    "patterns": ["./tlv"],
+    "harness": {"tlv": ["tlv/c16.go"]},
+    "level_text": "For every byte string of length 0..N (N=6 quick, 8 thorough; every length a separate case, all bytes symbolic) the SSA of tlv.Decode/decodeFromBuffer/ParseTag/ParseLength/ParseTagAndLength/BytesFromBuffer, the node types and their Encode methods is executed symbolically together with an independent BER reader; z3 shows on every accepting path that the reference accepts, the two trees agree node by node (tag, constructed-ness, value bytes, order), every input byte is accounted for, the re-encoding is definite/minimal, decodes to an equal tree, is idempotent, and equals the input when the input was canonical. NodeByTagOccur/NodeByTag are compared with a linear reference for a symbolic tag and occurrence; the depth and element-count limits are shown by an inductive step of decodeFromBuffer from an arbitrary (depth, counter) pre-state.",
+    "level_note": "Bounded: arbitrary inputs longer than N bytes are outside the claim (the limits are covered inductively). Two tolerances of the decoder are part of the reference and reported as observations, not violations: an end-of-contents marker may end a definite-length level when nothing follows in that level, and an indefinite-length value may be ended by the end of the enclosing level. Trusted: gosym and its models of bytes.Buffer/io.ReadFull (interpreted)/fmt.Errorf/errors.Is, z3.",
+    "bounds": "input length 0..6 (quick) / 0..8 (thorough) for faithful+canonical; 0..5 / 0..7 for lookup and limits; tag symbolic 32 bit; occurrence 1..4; pre-state depth 0..52, counter 0..10001; loop unwinding 40",
+    "outside": "inputs longer than the bound; trees that actually reach 10000 elements or depth 50 are never built (inductive step only); NodeByTagOccur with occurrence > 4",
+    "assumptions": ["tolerances T1/T2 (see harness/tlv/c16.go header) are accepted behaviour"],
+    "jobs": [
+        {"func": "verifH_C16_faithful", "pkg": "tlv", "params": {"N": list(range(0, 7)), "strict": 0}, "params_thorough": {"N": list(range(0, 9))}, "unwind": 40, "expect_reach": ["rejected"]},
+        {"func": "verifH_C16_lookup", "pkg": "tlv", "params": {"N": list(range(0, 6))}, "params_thorough": {"N": list(range(0, 8))}, "unwind": 40},
+        {"func": "verifH_C16_limits", "pkg": "tlv", "params": {"N": list(range(0, 6))}, "params_thorough": {"N": list(range(0, 8))}, "unwind": 40, "expect_reach": ["ok"]},
+    ],
+}
